@@ -541,8 +541,8 @@ def obligations(tier):
 
     for cls in c17_ops.CLASSES:
         for op in c17_ops.OPS:
-            obs.append(Ob(f"records_preserved/{cls}/{op}", "props.c17_ops", "mk_db_op", {"op": op, "cls_name": cls}, timeout=1800, group="ops"))
-    obs.append(Ob("records_preserved/Basic+Gff/union", "props.c17_ops", "mk_db_op", {"op": "union", "cls_name": "BasicAnnotationDb", "other_cls": "GffAnnotationDb"}, timeout=1800, group="ops"))
+            obs.append(Ob(f"records_preserved/{cls}/{op}", "props.c17_ops", "mk_db_op", {"op": op, "cls_name": cls}, timeout=1800, group="ops", grade="realised-input"))
+    obs.append(Ob("records_preserved/Basic+Gff/union", "props.c17_ops", "mk_db_op", {"op": "union", "cls_name": "BasicAnnotationDb", "other_cls": "GffAnnotationDb"}, timeout=1800, group="ops", grade="realised-input"))
     return obs
 
 
